@@ -1,42 +1,32 @@
 (** * UciProofs: theorems about the UCI dispatcher model [UciModel] (C16 second half, C12 parts)
 
     Section parameter   [from_uci : pos -> str -> option mv]   (model of GetMoveFromUci)
-    Section hypotheses (named, see the final report)
+    Section hypothesis (named, see the final report)
       [from_uci_legal]    a move returned by GetMoveFromUci is a legal move of the position
                           (NotationProofs.from_uci_sound for NotationImpl.from_uci: instantiated at
-                          the end of this file)
-      [legal_keeps_safe]  Rules-level: a legal move made in a position satisfying [safe_pos]
-                          (64 valid cells, one king each, the side which has just moved not in
-                          check, a consistent en-passant square) leads to such a position again
-                          - i.e. legal moves never capture a king and keep the mover's king safe.
+                          the end of this file, [*_notation] are closed theorems)
+    No longer a hypothesis: [legal_keeps_safe] (a legal move made in a position satisfying
+    [safe_pos] - 64 valid cells, one king each, the side which has just moved not in check, a
+    consistent en-passant square - leads to such a position again) is the theorem
+    [RulesFacts.legal_keeps_safe]; [safe_pos] itself is defined in RulesFacts.
 
     Main results
       [uci_total]            no line of bytes makes the handler panic (any state satisfying the
                              invariant [ust_ok], which every reachable state does)
       [uci_total_reachable]  ... for every sequence of lines from the initial state
       [isready_answered]     "isready" is answered with readyok in EVERY state
+      [isready_ws_answered]  ... also when surrounded by white space (uci.go:219 TrimSpace)
       [position_kept_on_error], [position_moves_spec], [position_is_fold]
       [setoption_exact], [setoption_unknown], [setoption_table]                          *)
 From Coq Require Import NArith ZArith List Bool Lia ZifyN ZifyBool String Ascii.
-From FG Require Import Geom Rules FenSpec Oracle FenImpl FenProofs UciModel.
+From FG Require Import Geom Rules FenSpec Oracle FenImpl FenProofs UciModel RulesFacts.
 Import ListNotations.
 Open Scope N_scope.
 
 Ltac Zify.zify_post_hook ::= Z.to_euclidean_division_equations.
 
 (** ** the invariant of positions held by the handler *)
-(* on the rules position; does not look at the clocks *)
-Definition ep_cons (q : pos) : bool :=
-  let e := ep q in
-  (e =? 64) ||
-  ((e <? 64) && (e / 8 =? (if stm q =? 0 then 5 else 2)) && (at_ (brd q) e =? 0)
-   && (at_ (brd q) (if stm q =? 0 then e - 8 else e + 8) =? 8 * (1 - stm q) + 2)).
-Definition safe_pos (q : pos) : bool :=
-  Nat.eqb (List.length (brd q)) 64 && forallb cell_ok (brd q)
-  && Nat.eqb (count_piece (brd q) 1) 1 && Nat.eqb (count_piece (brd q) 9) 1
-  && (stm q <? 2) && (cr q <? 16)
-  && ep_cons q
-  && negb (in_check_b (brd q) (flip (stm q))).
+(* [safe_pos], [ep_cons]: RulesFacts (on the rules position; does not look at the clocks) *)
 
 (* the invariant of the engine position: structure (= [safe_pos] of its abstraction,
    [fstruct_safe]) and clocks; [made] = moves made since the position was set up *)
@@ -44,21 +34,6 @@ Definition finv (p : fpos) (made : nat) : Prop :=
   fstruct p = true /\ in_int64 (f_hmc p) = true /\
   (1 <= f_nhm p <= 2000000 + Z.of_nat made)%Z /\ ((f_nhm p + Z.of_N (f_side p)) mod 2 = 1)%Z.
 Definition ust_ok (st : ustate) : Prop := finv (u_pos st) (u_hist st) /\ (u_hist st <= RebaseAt)%nat.
-
-Lemma safe_pos_inv q : safe_pos q = true ->
-  List.length (brd q) = 64%nat /\ forallb cell_ok (brd q) = true /\
-  count_piece (brd q) 1 = 1%nat /\ count_piece (brd q) 9 = 1%nat /\ stm q < 2 /\ cr q < 16 /\
-  ep_cons q = true /\ in_check_b (brd q) (flip (stm q)) = false.
-Proof.
-  unfold safe_pos. intros H. repeat (apply andb_true_iff in H as [H ?]).
-  apply Nat.eqb_eq in H.
-  repeat match goal with
-         | H : Nat.eqb _ _ = true |- _ => apply Nat.eqb_eq in H
-         | H : (_ <? _) = true |- _ => apply N.ltb_lt in H
-         | H : negb _ = true |- _ => apply negb_true_iff in H
-         end.
-  repeat split; assumption.
-Qed.
 
 (* IsAttacked on a king square is the plain attack test: the en-passant convention of
    IsAttacked only concerns a square holding a pawn *)
@@ -126,7 +101,7 @@ Proof. reflexivity. Qed.
 Section Proofs.
 Variable from_uci : pos -> str -> option mv.
 Hypothesis from_uci_legal : forall q s m, from_uci q s = Some m -> In m (legal q).
-Hypothesis legal_keeps_safe : forall q m, safe_pos q = true -> In m (legal q) -> safe_pos (make q m) = true.
+(* [legal_keeps_safe] is RulesFacts.legal_keeps_safe *)
 
 (** ** GetMoveFromUci does not panic, DoMove keeps the invariant *)
 Lemma get_move_some p tk : fstruct p = true -> get_move from_uci p tk = Some (from_uci (abs p) tk).
@@ -339,11 +314,69 @@ Corollary isready_answered_reachable : forall c st0 lines st out,
   handle from_uci st (b "isready") = Done st [OReadyOk] Continue.
 Proof. intros. apply isready_answered. Qed.
 
-(* trailing white space is harmless; a line that STARTS with white space is ignored as a whole
-   (tokens[0] is the empty string: uci.go:219 `strings.TrimSpace(tokens[0])` discards its result) *)
+(** white space around the command is harmless: uci.go:219 splits strings.TrimSpace(cmd).
+    (Before the fix "leading white space does not hide a UCI command" a line that STARTED with
+    white space was ignored as a whole: tokens[0] was the empty string.) *)
+Lemma strip_all_spaces (f : str -> option str) :
+  (forall c r, is_ascii_space c = true -> f (c :: r) = Some r) ->
+  forall pre rest, forallb is_ascii_space pre = true -> f rest = None ->
+  forall fuel, (List.length pre <= fuel)%nat -> strip_all f fuel (pre ++ rest) = rest.
+Proof.
+  intros Hf. induction pre as [|c pre IH]; intros rest Hpre Hrest fuel Hfuel.
+  - now apply strip_all_none.
+  - cbn [forallb] in Hpre. apply andb_true_iff in Hpre as [Hc Hpre].
+    destruct fuel as [|k]; [cbn in Hfuel; lia|]. cbn [strip_all app].
+    rewrite (Hf c (pre ++ rest) Hc). apply IH; try assumption. cbn in Hfuel. lia.
+Qed.
+
+Lemma strip1_space c r : is_ascii_space c = true -> strip1 (c :: r) = Some r.
+Proof. intros H. unfold strip1. now rewrite H. Qed.
+Lemma strip1r_space c r : is_ascii_space c = true -> strip1r (c :: r) = Some r.
+Proof. intros H. unfold strip1r. now rewrite H. Qed.
+
+Lemma forallb_rev {A} (f : A -> bool) l : forallb f l = true -> forallb f (rev l) = true.
+Proof. rewrite !forallb_forall. intros H x Hx. apply H. now apply in_rev. Qed.
+
+(* TrimSpace removes a frame of ASCII white space (\t \n \v \f \r and blank) around a core
+   which neither starts nor ends with white space *)
+Lemma trim_space_frame pre core post :
+  forallb is_ascii_space pre = true -> forallb is_ascii_space post = true ->
+  strip1 (core ++ post) = None -> strip1r (rev core) = None ->
+  trim_space (pre ++ core ++ post) = core.
+Proof.
+  intros Hpre Hpost Hc Hr. unfold trim_space.
+  rewrite (strip_all_spaces strip1 strip1_space pre (core ++ post) Hpre Hc) by (rewrite app_length; lia).
+  rewrite rev_app_distr.
+  rewrite (strip_all_spaces strip1r strip1r_space (rev post) (rev core) (forallb_rev _ _ Hpost) Hr)
+    by (rewrite rev_length, app_length; lia).
+  apply rev_involutive.
+Qed.
+
+(** a line that is "isready" surrounded by any amount of white space is answered with readyok,
+    in EVERY state *)
+Theorem isready_ws_answered : forall st pre post,
+  forallb is_ascii_space pre = true -> forallb is_ascii_space post = true ->
+  handle from_uci st (pre ++ b "isready" ++ post) = Done st [OReadyOk] Continue.
+Proof.
+  intros st pre post Hpre Hpost. unfold handle.
+  assert (Htok : tokens (pre ++ b "isready" ++ post) = [b "isready"]).
+  { unfold tokens. rewrite trim_space_frame; [reflexivity|exact Hpre|exact Hpost|reflexivity|reflexivity]. }
+  destruct (pre ++ b "isready" ++ post) as [|c0 l] eqn:E.
+  - apply app_eq_nil in E as [_ E]. discriminate E.
+  - rewrite Htok. reflexivity.
+Qed.
+
 Example isready_trailing_ws : forall st, handle from_uci st (b "isready  ") = Done st [OReadyOk] Continue.
 Proof. intros st. reflexivity. Qed.
-Example isready_leading_ws_ignored : forall st, handle from_uci st (b " isready") = Done st [] Continue.
+Example isready_leading_ws : forall st, handle from_uci st (b " isready") = Done st [OReadyOk] Continue.
+Proof. intros st. exact (isready_ws_answered st (b " ") [] eq_refl eq_refl). Qed.
+(* Unicode white space (here U+00A0 in front, U+0085 and \v behind) is trimmed as well *)
+Example isready_unicode_ws : forall st,
+  handle from_uci st ([194; 160] ++ b "isready" ++ [194; 133; 11]) = Done st [OReadyOk] Continue.
+Proof. intros st. reflexivity. Qed.
+(* ... but white space INSIDE a token is not: a no-break space is not \s for the regexp *)
+Example isready_inner_nbsp_ignored : forall st,
+  handle from_uci st (b "isready" ++ [194; 160] ++ b "x") = Done st [] Continue.
 Proof. intros st. reflexivity. Qed.
 
 (** ** position: what is kept on errors *)
@@ -635,7 +668,8 @@ Proof.
   - reflexivity.
 Qed.
 
-(** evidence (not a proof) for the Section hypothesis [legal_keeps_safe]: it is checked by
+(** regression check of [RulesFacts.legal_keeps_safe] (formerly a Section hypothesis, for which
+    this was the evidence; now a theorem): it is checked by
     computation on every legal move of a list of positions covering en passant, castling,
     promotion, check evasion, pinned pieces and pawns on the back ranks *)
 Definition keeps_safe_check (q : pos) : bool :=
@@ -656,137 +690,216 @@ Example legal_keeps_safe_evidence :
                                      | _ => false end) evidence_fens = true.
 Proof. vm_compute. reflexivity. Qed.
 
-(** instances with GetMoveFromUci := NotationImpl.from_uci: only [legal_keeps_safe] remains *)
+(** instances with GetMoveFromUci := NotationImpl.from_uci: closed theorems, nothing remains *)
 Definition uci_total_notation := uci_total NotationImpl.from_uci notation_from_uci_legal.
 Definition uci_total_reachable_notation := uci_total_reachable NotationImpl.from_uci notation_from_uci_legal.
 Definition position_is_fold_notation := position_is_fold NotationImpl.from_uci notation_from_uci_legal.
+Definition position_moves_spec_notation := position_moves_spec NotationImpl.from_uci notation_from_uci_legal.
+Definition position_kept_on_error_notation := position_kept_on_error NotationImpl.from_uci.
+Definition isready_ws_answered_notation := isready_ws_answered NotationImpl.from_uci.
 
 (** ** observations of the real engine (uci.go / ucioption.go at the modelled revision) *)
 Fixpoint strs_eqb (x y : list str) : bool :=
   match x, y with [], [] => true | u :: x', v :: y' => str_eqb u v && strs_eqb x' y' | _, _ => false end.
-(* regexWhiteSpace.Split(cmd, -1) *)
+(* regexWhiteSpace.Split(strings.TrimSpace(cmd), -1) *)
 Definition tokens_observed : list (str * list str) := [
-([12;103;111;12;12;12;97], [[];[103;111];[97]]);
-([194;133;13], [[194;133];[]]);
-([31;9], [[31];[]]);
-([12;194;160;112;111;115;105;116;105;111;110;103;111;32;32], [[];[194;160;112;111;115;105;116;105;111;110;103;111];[]]);
-([194;133;0;10;9], [[194;133;0];[]]);
-([0;226;128;131;194;160;103;111;0;31], [[0;226;128;131;194;160;103;111;0;31]]);
-([13;97], [[];[97]]);
-([31;194;160;31], [[31;194;160;31]]);
-([12], [[];[]]);
-([32;32;0;255;194;133;10], [[];[0;255;194;133];[]]);
-([12;11], [[];[11]]);
-([112;111;115;105;116;105;111;110;112;111;115;105;116;105;111;110;194;133;103;111;12;12], [[112;111;115;105;116;105;111;110;112;111;115;105;116;105;111;110;194;133;103;111];[]]);
-([112;111;115;105;116;105;111;110;194;133], [[112;111;115;105;116;105;111;110;194;133]]);
-([31;255], [[31;255]]);
-([12;32], [[];[]]);
-([31;97;120;32;121], [[31;97;120];[121]]);
-([112;111;115;105;116;105;111;110;9;103;111;255;32;32;226;128;131], [[112;111;115;105;116;105;111;110];[103;111;255];[226;128;131]]);
-([31;13], [[31];[]]);
-([11;13;226;128;131;112;111;115;105;116;105;111;110;11;11], [[11];[226;128;131;112;111;115;105;116;105;111;110;11;11]]);
-([255;226;128;131;32;12;194;160;32;32], [[255;226;128;131];[194;160];[]]);
-([120;32;121;12], [[120];[121];[]]);
-([194;160;103;111;226;128;131;112;111;115;105;116;105;111;110;10;12], [[194;160;103;111;226;128;131;112;111;115;105;116;105;111;110];[]]);
-([120;32;121;97;103;111;11;226;128;131;12], [[120];[121;97;103;111;11;226;128;131];[]]);
-([12;103;111;32;194;160;120;32;121;31], [[];[103;111];[194;160;120];[121;31]]);
-([13;31], [[];[31]]);
-([11;97;194;160], [[11;97;194;160]]);
-([12;194;160;10;255;112;111;115;105;116;105;111;110], [[];[194;160];[255;112;111;115;105;116;105;111;110]]);
-([194;160;255;255;31;120;32;121], [[194;160;255;255;31;120];[121]]);
-([13;194;160], [[];[194;160]]);
-([0;31;31;0;10;0], [[0;31;31;0];[0]]);
-([10], [[];[]]);
-([32;12;120;32;121], [[];[120];[121]]);
-([255;112;111;115;105;116;105;111;110;12;12;32;194;160], [[255;112;111;115;105;116;105;111;110];[194;160]]);
-([10;194;133], [[];[194;133]]);
-([226;128;131;13;32;32;112;111;115;105;116;105;111;110;103;111;112;111;115;105;116;105;111;110], [[226;128;131];[112;111;115;105;116;105;111;110;103;111;112;111;115;105;116;105;111;110]]);
-([97;32;32;194;133;32;32;97], [[97];[194;133];[97]]);
-([12;194;133;32;31;120;32;121], [[];[194;133];[31;120];[121]]);
-([32;9;13], [[];[]]);
-([194;133;12;226;128;131;194;133;226;128;131], [[194;133];[226;128;131;194;133;226;128;131]]);
-([10;194;160;10], [[];[194;160];[]]);
-([97;255;32;112;111;115;105;116;105;111;110;32], [[97;255];[112;111;115;105;116;105;111;110];[]]);
-([13;31;13], [[];[31];[]]);
-([9;97;112;111;115;105;116;105;111;110], [[];[97;112;111;115;105;116;105;111;110]]);
-([194;133;194;133], [[194;133;194;133]]);
-([32;32;11;32;32;97], [[];[11];[97]]);
-([112;111;115;105;116;105;111;110;32;194;133;120;32;121;120;32;121], [[112;111;115;105;116;105;111;110];[194;133;120];[121;120];[121]]);
-([31;0;226;128;131;226;128;131;0], [[31;0;226;128;131;226;128;131;0]]);
-([226;128;131;103;111;32;0;13;0], [[226;128;131;103;111];[0];[0]]);
-([31;10;194;133], [[31];[194;133]]);
-([103;111;255;255;32;12;9], [[103;111;255;255];[]]);
-([9;120;32;121;255;9;103;111], [[];[120];[121;255];[103;111]]);
-([0;255], [[0;255]]);
-([9;120;32;121;10;194;133;11;32;32], [[];[120];[121];[194;133;11];[]]);
-([10;120;32;121;97], [[];[120];[121;97]]);
-([226;128;131;9;10;11], [[226;128;131];[11]]);
-([255;194;133;11;12;120;32;121], [[255;194;133;11];[120];[121]]);
-([226;128;131], [[226;128;131]]);
-([0;97;11;11;120;32;121;9], [[0;97;11;11;120];[121];[]]);
-([255;97;32;32;32;255;31], [[255;97];[255;31]]);
-([32;10], [[];[]]);
-([10;255;10;226;128;131], [[];[255];[226;128;131]]);
-([194;133;226;128;131;97;31;10], [[194;133;226;128;131;97;31];[]]);
-([13;9;32;32], [[];[]]);
-([32;32;112;111;115;105;116;105;111;110;103;111], [[];[112;111;115;105;116;105;111;110;103;111]]);
-([103;111;10], [[103;111];[]]);
-([120;32;121;103;111], [[120];[121;103;111]]);
-([194;133;112;111;115;105;116;105;111;110], [[194;133;112;111;115;105;116;105;111;110]]);
-([97;103;111;12], [[97;103;111];[]]);
-([194;160;11], [[194;160;11]]);
-([31;226;128;131;10;112;111;115;105;116;105;111;110], [[31;226;128;131];[112;111;115;105;116;105;111;110]]);
-([103;111;9;97;10], [[103;111];[97];[]]);
-([9;10], [[];[]]);
-([32;0;12;9], [[];[0];[]]);
-([11;13;194;160;103;111], [[11];[194;160;103;111]]);
-([97;10;194;133], [[97];[194;133]]);
-([97;9;10;31], [[97];[31]]);
-([9;226;128;131;0], [[];[226;128;131;0]]);
-([12;97;0;103;111;97;194;160], [[];[97;0;103;111;97;194;160]]);
-([97;32], [[97];[]]);
-([120;32;121;255;31;32;120;32;121], [[120];[121;255;31];[120];[121]]);
-([112;111;115;105;116;105;111;110;32;32;13;32;32;32;32], [[112;111;115;105;116;105;111;110];[]]);
-([32;103;111], [[];[103;111]]);
-([10;226;128;131;10;11;32;32;226;128;131], [[];[226;128;131];[11];[226;128;131]]);
-([0;11], [[0;11]]);
-([31;31;194;160;12;13;32;32], [[31;31;194;160];[]]);
-([226;128;131;103;111;32;10;32;194;133], [[226;128;131;103;111];[194;133]]);
-([120;32;121;103;111;9;32;12], [[120];[121;103;111];[]]);
-([255;97;255;255;32;32;120;32;121], [[255;97;255;255];[120];[121]]);
-([32;32;0;103;111;0;194;160;103;111], [[];[0;103;111;0;194;160;103;111]]);
-([103;111;120;32;121], [[103;111;120];[121]]);
-([112;111;115;105;116;105;111;110;103;111;32;194;160;194;160;12], [[112;111;115;105;116;105;111;110;103;111];[194;160;194;160];[]]);
-([226;128;131;112;111;115;105;116;105;111;110;255], [[226;128;131;112;111;115;105;116;105;111;110;255]]);
-([10;12], [[];[]]);
-([226;128;131;13], [[226;128;131];[]]);
-([194;160;11;0;112;111;115;105;116;105;111;110], [[194;160;11;0;112;111;115;105;116;105;111;110]]);
-([32;13;103;111], [[];[103;111]]);
-([31;97;97;120;32;121], [[31;97;97;120];[121]]);
-([103;111;12;31;97], [[103;111];[31;97]]);
-([103;111;120;32;121;226;128;131;0;32;32;11], [[103;111;120];[121;226;128;131;0];[11]]);
-([31;226;128;131], [[31;226;128;131]]);
-([31;32;255], [[31];[255]]);
-([97;9], [[97];[]]);
-([32;32;12;12;97;226;128;131], [[];[97;226;128;131]]);
-([10;13;0;32], [[];[0];[]]);
-([9;120;32;121], [[];[120];[121]]);
-([31;103;111;9;31;11], [[31;103;111];[31;11]]);
-([112;111;115;105;116;105;111;110;226;128;131;10;12;0;32], [[112;111;115;105;116;105;111;110;226;128;131];[0];[]]);
-([97;9;194;133], [[97];[194;133]]);
-([12;120;32;121;32;32;31;13;226;128;131], [[];[120];[121];[31];[226;128;131]]);
-([13;32;32], [[];[]]);
-([194;133;9;0;12;10;31], [[194;133];[0];[31]]);
-([31;9;226;128;131;120;32;121;0;103;111], [[31];[226;128;131;120];[121;0;103;111]]);
-([9;32;32], [[];[]]);
-([255;103;111;11;10], [[255;103;111;11];[]]);
-([32;32;9;13;32], [[];[]]);
-([31;31;12], [[31;31];[]]);
-([32;32;13;10;103;111], [[];[103;111]]);
-([13;0;194;160;32;194;133;255], [[];[0;194;160];[194;133;255]]);
-([226;128;131;194;133;97;97;226;128;131;10], [[226;128;131;194;133;97;97;226;128;131];[]]);
-([32;32;226;128;131;9;97;226;128;131;194;133], [[];[226;128;131];[97;226;128;131;194;133]])].
+([120;32;121], [[120];[121]]);
+([133;133;226;128;131;13], [[133;133]]);
+([194;9;103;111], [[194];[103;111]]);
+([0;194;160;226;128;139], [[0;194;160;226;128;139]]);
+([194;105;115;114;101;97;100;121;13;105;115;114;101;97;100;121;12], [[194;105;115;114;101;97;100;121];[105;115;114;101;97;100;121]]);
+([226;128;139], [[226;128;139]]);
+([226;128;139;226;128;168;10;103;111;32], [[226;128;139;226;128;168];[103;111]]);
+([194;133;194;12], [[194]]);
+([9;120;32;121;13;226;128], [[120];[121];[226;128]]);
+([225;160;142;226;128;168;32;32;13], [[225;160;142]]);
+([9], [[]]);
+([226;128;139;226;128;175;10;12;133], [[226;128;139;226;128;175];[133]]);
+([13;255;31], [[255;31]]);
+([9;255;97;226;129;159;227;128;128;0], [[255;97;226;129;159;227;128;128;0]]);
+([226;128;168;226;128;175;120;32;121;97], [[120];[121;97]]);
+([97;133;10;227;128;128;226;128;175;9], [[97;133]]);
+([226;128;131;112;111;115;105;116;105;111;110;10], [[112;111;115;105;116;105;111;110]]);
+([105;115;114;101;97;100;121;225;160;142], [[105;115;114;101;97;100;121;225;160;142]]);
+([32;32;120;32;121;225;154;128;226;128;139], [[120];[121;225;154;128;226;128;139]]);
+([0;97;105;115;114;101;97;100;121;160;226;128;255], [[0;97;105;115;114;101;97;100;121;160;226;128;255]]);
+([31;226;129;159;9;160;120;32;121], [[31;226;129;159];[160;120];[121]]);
+([226;128;175;105;115;114;101;97;100;121;226;128;139;226;128;139;112;111;115;105;116;105;111;110;226;128], [[105;115;114;101;97;100;121;226;128;139;226;128;139;112;111;115;105;116;105;111;110;226;128]]);
+([0;226;128;168;226;128;139;11], [[0;226;128;168;226;128;139]]);
+([226;128;168;12;226;129;159], [[]]);
+([31;226;128;168;255;226;128;131], [[31;226;128;168;255]]);
+([31;225;154;128], [[31]]);
+([103;111;226;128;139], [[103;111;226;128;139]]);
+([11;194;133;255;32;32;13], [[255]]);
+([13;112;111;115;105;116;105;111;110;32;32;194;133], [[112;111;115;105;116;105;111;110]]);
+([226;128], [[226;128]]);
+([103;111;103;111;9;194;160;255;226;128;131], [[103;111;103;111];[194;160;255]]);
+([103;111;227;128;128;194;133;194], [[103;111;227;128;128;194;133;194]]);
+([194;133;103;111;227;128;128;105;115;114;101;97;100;121;11], [[103;111;227;128;128;105;115;114;101;97;100;121]]);
+([255;226;129;159;31], [[255;226;129;159;31]]);
+([225;160;142;97;226;128;131;31;226;129;159;255], [[225;160;142;97;226;128;131;31;226;129;159;255]]);
+([13;194;133], [[]]);
+([97;12;226;128;175;194;133], [[97]]);
+([194;160;255;103;111;32;13], [[255;103;111]]);
+([227;128;128;226;128;168], [[]]);
+([31;112;111;115;105;116;105;111;110], [[31;112;111;115;105;116;105;111;110]]);
+([194;13;32;32;133;226;128;175;120;32;121], [[194];[133;226;128;175;120];[121]]);
+([226;128;175;226;129;159], [[]]);
+([32;32;226;128;175;194;226;128;226;128;31], [[194;226;128;226;128;31]]);
+([194;194;226;128;10], [[194;194;226;128]]);
+([225;154;128], [[]]);
+([9;226;128;168;105;115;114;101;97;100;121;120;32;121;31;255], [[105;115;114;101;97;100;121;120];[121;31;255]]);
+([105;115;114;101;97;100;121;11;97;194;133;120;32;121;32;32], [[105;115;114;101;97;100;121;11;97;194;133;120];[121]]);
+([225;160;142;194;160;10;9], [[225;160;142]]);
+([133;226;129;159;226;128;168;194;133], [[133]]);
+([32;32;133;32], [[133]]);
+([0;226;128;168;0;194;0;226;128], [[0;226;128;168;0;194;0;226;128]]);
+([226;128;97;226;128], [[226;128;97;226;128]]);
+([32;32;255;120;32;121], [[255;120];[121]]);
+([31;32;32], [[31]]);
+([0;133;226;128;32;32;11], [[0;133;226;128]]);
+([226;128;139], [[226;128;139]]);
+([194;133;31], [[31]]);
+([194], [[194]]);
+([11;194;160;227;128;128;105;115;114;101;97;100;121;225;160;142], [[105;115;114;101;97;100;121;225;160;142]]);
+([13;160;97], [[160;97]]);
+([194;112;111;115;105;116;105;111;110;112;111;115;105;116;105;111;110], [[194;112;111;115;105;116;105;111;110;112;111;115;105;116;105;111;110]]);
+([31;112;111;115;105;116;105;111;110;31], [[31;112;111;115;105;116;105;111;110;31]]);
+([225;160;142;226;128;168;226;128;175;225;160;142;226;128;175], [[225;160;142;226;128;168;226;128;175;225;160;142]]);
+([225;154;128;112;111;115;105;116;105;111;110;11;11], [[112;111;115;105;116;105;111;110]]);
+([133;0], [[133;0]]);
+([112;111;115;105;116;105;111;110;105;115;114;101;97;100;121;225;160;142;32;32], [[112;111;115;105;116;105;111;110;105;115;114;101;97;100;121;225;160;142]]);
+([9;194;160;226;128;131], [[]]);
+([226;128;168], [[]]);
+([226;129;159;105;115;114;101;97;100;121;120;32;121;194;160;10;13], [[105;115;114;101;97;100;121;120];[121]]);
+([226;128;168;103;111], [[103;111]]);
+([194;255], [[194;255]]);
+([226;128;139], [[226;128;139]]);
+([9;112;111;115;105;116;105;111;110;255;194;160;32], [[112;111;115;105;116;105;111;110;255]]);
+([226;128;139;10;226;128;139;112;111;115;105;116;105;111;110], [[226;128;139];[226;128;139;112;111;115;105;116;105;111;110]]);
+([194], [[194]]);
+([226;128;168;103;111;194;133;31;226;128;131;226;128;175], [[103;111;194;133;31]]);
+([226;128;12], [[226;128]]);
+([32;32;9;226;129;159;32;112;111;115;105;116;105;111;110;10], [[112;111;115;105;116;105;111;110]]);
+([255;12;11;226;129;159], [[255]]);
+([112;111;115;105;116;105;111;110;13;194;9], [[112;111;115;105;116;105;111;110];[194]]);
+([32;32;11;227;128;128;194;160;225;154;128], [[]]);
+([226;128;168;226;128;131;105;115;114;101;97;100;121;194;105;115;114;101;97;100;121], [[105;115;114;101;97;100;121;194;105;115;114;101;97;100;121]]);
+([226;129;159;226;128;175;194;133;105;115;114;101;97;100;121], [[105;115;114;101;97;100;121]]);
+([97;32;32;32;226;128;175;10], [[97]]);
+([226;129;159;105;115;114;101;97;100;121;0], [[105;115;114;101;97;100;121;0]]);
+([227;128;128;226;128;139], [[226;128;139]]);
+([32;194;226;128;168;13], [[194]]);
+([194;133;194;160;32;9;97], [[97]]);
+([13;103;111;160], [[103;111;160]]);
+([97;194;133;194;160], [[97]]);
+([31;105;115;114;101;97;100;121;10;226;128;131], [[31;105;115;114;101;97;100;121]]);
+([226;128;139;226;128;131], [[226;128;139]]);
+([226;128;175;12;225;154;128;133;133;9], [[133;133]]);
+([13;120;32;121;0;194;103;111], [[120];[121;0;194;103;111]]);
+([112;111;115;105;116;105;111;110;194;133;225;160;142], [[112;111;115;105;116;105;111;110;194;133;225;160;142]]);
+([13;120;32;121;105;115;114;101;97;100;121;12;255;0], [[120];[121;105;115;114;101;97;100;121];[255;0]]);
+([226;128;131;226;128;175;133;194;160;120;32;121;160], [[133;194;160;120];[121;160]]);
+([31;120;32;121;32;32;120;32;121;194;133;226;128;175], [[31;120];[121];[120];[121]]);
+([112;111;115;105;116;105;111;110;133;194;160], [[112;111;115;105;116;105;111;110;133]]);
+([12;226;129;159;227;128;128;120;32;121;105;115;114;101;97;100;121], [[120];[121;105;115;114;101;97;100;121]]);
+([226;128;139;226;128;131;226;129;159;226;128;139;12], [[226;128;139;226;128;131;226;129;159;226;128;139]]);
+([226;128;175;225;154;128;227;128;128;226;128;168;97], [[97]]);
+([226;128;175;133;120;32;121], [[133;120];[121]]);
+([194;226;129;159;112;111;115;105;116;105;111;110;105;115;114;101;97;100;121;9], [[194;226;129;159;112;111;115;105;116;105;111;110;105;115;114;101;97;100;121]]);
+([194;133;112;111;115;105;116;105;111;110;32;32;31;255], [[112;111;115;105;116;105;111;110];[31;255]]);
+([226;128;139;226;128;168], [[226;128;139]]);
+([105;115;114;101;97;100;121;105;115;114;101;97;100;121;97;226;128;168], [[105;115;114;101;97;100;121;105;115;114;101;97;100;121;97]]);
+([225;160;142], [[225;160;142]]);
+([97;97;12], [[97;97]]);
+([10], [[]]);
+([133;226;128;168;227;128;128], [[133]]);
+([120;32;121], [[120];[121]]);
+([11;255;97;226;128;168;0;160], [[255;97;226;128;168;0;160]]);
+([194], [[194]]);
+([105;115;114;101;97;100;121;11;32;32;226;128;131], [[105;115;114;101;97;100;121]]);
+([97;226;128;175;226;128;175], [[97]]);
+([226;128;225;154;128;227;128;128], [[226;128]]);
+([226;128;168], [[]]);
+([12], [[]]);
+([105;115;114;101;97;100;121;0;32;32;255;120;32;121;226;128;175], [[105;115;114;101;97;100;121;0];[255;120];[121]]);
+([97;226;128;131;225;154;128], [[97]]);
+([97], [[97]]);
+([227;128;128;32;32;226;129;159], [[]]);
+([0], [[0]]);
+([105;115;114;101;97;100;121;12], [[105;115;114;101;97;100;121]]);
+([13;225;160;142;13;225;160;142;226;128;175;11], [[225;160;142];[225;160;142]]);
+([225;154;128;105;115;114;101;97;100;121;12;103;111;120;32;121;160], [[105;115;114;101;97;100;121];[103;111;120];[121;160]]);
+([133], [[133]]);
+([120;32;121;133;226;128;175;226;128;168;97;112;111;115;105;116;105;111;110], [[120];[121;133;226;128;175;226;128;168;97;112;111;115;105;116;105;111;110]]);
+([226;128;175;9;255;225;160;142], [[255;225;160;142]]);
+([10;9], [[]]);
+([0], [[0]]);
+([194;112;111;115;105;116;105;111;110;9;227;128;128;9;0], [[194;112;111;115;105;116;105;111;110];[227;128;128];[0]]);
+([0;226;128;175;194;133], [[0]]);
+([227;128;128;0;160;105;115;114;101;97;100;121;32;32], [[0;160;105;115;114;101;97;100;121]]);
+([226;128;168;10;160], [[160]]);
+([194;133;133;226;128;131;226;128;168;13], [[133]]);
+([227;128;128;105;115;114;101;97;100;121;226;128;226;128;175;32;32], [[105;115;114;101;97;100;121;226;128]]);
+([11;227;128;128;31;13], [[31]]);
+([10;97], [[97]]);
+([226;128;139;226;128;32;32;11], [[226;128;139;226;128]]);
+([160], [[160]]);
+([31], [[31]]);
+([11;103;111;10;225;154;128;226;128;175;227;128;128], [[103;111]]);
+([120;32;121;120;32;121], [[120];[121;120];[121]]);
+([133;32;32;226;128;168;9;105;115;114;101;97;100;121], [[133];[226;128;168];[105;115;114;101;97;100;121]]);
+([225;160;142;194;133], [[225;160;142]]);
+([226;128;168;194;160;11;226;128;168], [[]]);
+([194;133;11;31;120;32;121], [[31;120];[121]]);
+([226;128;32;32], [[226;128]]);
+([226;128;10;225;154;128;112;111;115;105;116;105;111;110;32;32;32;32], [[226;128];[225;154;128;112;111;115;105;116;105;111;110]]);
+([133;31;194;160;226;128], [[133;31;194;160;226;128]]);
+([97;226;128;131;226;128;131], [[97]]);
+([225;160;142;10;226;128;139], [[225;160;142];[226;128;139]]);
+([11;112;111;115;105;116;105;111;110;194;160], [[112;111;115;105;116;105;111;110]]);
+([105;115;114;101;97;100;121;13;226;128;131], [[105;115;114;101;97;100;121]]);
+([0;112;111;115;105;116;105;111;110;194;133;103;111;31;225;154;128], [[0;112;111;115;105;116;105;111;110;194;133;103;111;31]]);
+([11], [[]]);
+([103;111;226;129;159;105;115;114;101;97;100;121;13;226;128;131;11], [[103;111;226;129;159;105;115;114;101;97;100;121]]);
+([112;111;115;105;116;105;111;110;10;11], [[112;111;115;105;116;105;111;110]])].
 Example tokens_observed_agree : forallb (fun '(s, t) => strs_eqb (tokens s) t) tokens_observed = true.
+Proof. vm_compute. reflexivity. Qed.
+
+(* lines given to the real handler (UciHandler.Command): was "readyok" printed? *)
+Definition isready_observed : list (str * bool) := [
+([105;115;114;101;97;100;121], true);
+([32;105;115;114;101;97;100;121], true);
+([105;115;114;101;97;100;121;32], true);
+([32;32;105;115;114;101;97;100;121;32;32], true);
+([9;105;115;114;101;97;100;121;13], true);
+([11;105;115;114;101;97;100;121;11], true);
+([194;160;105;115;114;101;97;100;121;194;133], true);
+([226;128;131;105;115;114;101;97;100;121], true);
+([227;128;128;32;9;32;105;115;114;101;97;100;121;32;10;226;128;168], true);
+([0;105;115;114;101;97;100;121], false);
+([105;115;114;101;97;100;121;0], false);
+([105;115;32;114;101;97;100;121], false);
+([120;105;115;114;101;97;100;121], false);
+([105;115;114;101;97;100;121;32;120], true);
+([160;105;115;114;101;97;100;121], false);
+([194;105;115;114;101;97;100;121], false);
+([32;226;128;105;115;114;101;97;100;121], false);
+([226;128;139;105;115;114;101;97;100;121], false);
+([32], false);
+([194;160], false);
+([11], false);
+([32;105;115;114;101;97;100;121;32;103;111], true);
+([225;154;128;105;115;114;101;97;100;121;226;129;159], true);
+([226;128;175;105;115;114;101;97;100;121;226;128;169], true);
+([12;105;115;114;101;97;100;121;10;10], true)].
+Definition answers_readyok (line : str) : bool :=
+  match init_state (fun _ => 0%Z) with
+  | Some st => match handle (fun _ _ => None) st line with
+               | Done _ out _ => existsb (fun o => match o with OReadyOk => true | _ => false end) out
+               | UPanic => false end
+  | None => false end.
+Example isready_observed_agree : forallb (fun '(l, ok) => Bool.eqb (answers_readyok l) ok) isready_observed = true.
 Proof. vm_compute. reflexivity. Qed.
 
 (* "go ..." lines on the two kings-only positions: the info code printed (0 = a search started) *)
@@ -825,7 +938,7 @@ Definition go_observed : list (str * bool * N) := [
 ([103;111;32;102;111;111], true, 22);
 ([103;111;32;100;101;112;116;104;32;49;32;102;111;111], true, 22);
 ([103;111;32;32;100;101;112;116;104;32;32;49], true, 0);
-([103;111;32;100;101;112;116;104;32;49;32], true, 22);
+([103;111;32;100;101;112;116;104;32;49;32], true, 0);
 ([32;103;111;32;100;101;112;116;104;32;49], true, 0);
 ([103;111;9;100;101;112;116;104;9;49], true, 0);
 ([103;111;32;115;101;97;114;99;104;109;111;118;101;115;32;101;49;101;50;32;100;101;112;116;104;32;49], true, 0);
@@ -889,7 +1002,7 @@ Definition go_observed : list (str * bool * N) := [
 ([103;111;32;102;111;111], false, 22);
 ([103;111;32;100;101;112;116;104;32;49;32;102;111;111], false, 22);
 ([103;111;32;32;100;101;112;116;104;32;32;49], false, 0);
-([103;111;32;100;101;112;116;104;32;49;32], false, 22);
+([103;111;32;100;101;112;116;104;32;49;32], false, 0);
 ([32;103;111;32;100;101;112;116;104;32;49], false, 0);
 ([103;111;9;100;101;112;116;104;9;49], false, 0);
 ([103;111;32;115;101;97;114;99;104;109;111;118;101;115;32;101;49;101;50;32;100;101;112;116;104;32;49], false, 22);
@@ -929,6 +1042,41 @@ Example go_observed_agree :
   forallb (fun '(s, w, c) => (go_code s w =? c) && go_case_ok NotationImpl.from_uci s w (c =? 0)) go_observed = true.
 Proof. vm_compute. reflexivity. Qed.
 
+(* "go" lines with white space in front / behind / between (re-observed after uci.go:219 got its
+   strings.TrimSpace; "go depth 1 " with a trailing blank used to be rejected with code 22) *)
+Definition go_ws_observed : list (str * bool * N) := [
+([103;111;32;100;101;112;116;104;32;49;32], true, 0);
+([32;103;111;32;100;101;112;116;104;32;49], true, 0);
+([103;111;32;100;101;112;116;104;32;49], true, 0);
+([103;111;32;32;100;101;112;116;104;9;49;13], true, 0);
+([11;103;111;32;100;101;112;116;104;32;49;11], true, 0);
+([103;111;32;100;101;112;116;104;32;49;32;120], true, 22);
+([194;160;103;111;32;100;101;112;116;104;32;49;194;133], true, 0);
+([103;111;194;160;100;101;112;116;104;32;49], true, 0);
+([103;111;32;100;101;112;116;104;32;49;32;11;32;120], true, 22);
+([32;32;103;111], true, 23);
+([103;111;32;100;101;112;116;104;10], true, 20);
+([9;103;111;32;100;101;112;116;104;32;120;32], true, 21);
+([103;111;32;105;110;102;105;110;105;116;101;32], true, 0);
+([32;103;111;32;119;116;105;109;101;32;48;32;98;116;105;109;101;32;48;32], true, 24);
+([103;111;32;100;101;112;116;104;32;49;32], false, 0);
+([32;103;111;32;100;101;112;116;104;32;49], false, 0);
+([103;111;32;100;101;112;116;104;32;49], false, 0);
+([103;111;32;32;100;101;112;116;104;9;49;13], false, 0);
+([11;103;111;32;100;101;112;116;104;32;49;11], false, 0);
+([103;111;32;100;101;112;116;104;32;49;32;120], false, 22);
+([194;160;103;111;32;100;101;112;116;104;32;49;194;133], false, 0);
+([103;111;194;160;100;101;112;116;104;32;49], false, 0);
+([103;111;32;100;101;112;116;104;32;49;32;11;32;120], false, 22);
+([32;32;103;111], false, 23);
+([103;111;32;100;101;112;116;104;10], false, 20);
+([9;103;111;32;100;101;112;116;104;32;120;32], false, 21);
+([103;111;32;105;110;102;105;110;105;116;101;32], false, 0);
+([32;103;111;32;119;116;105;109;101;32;48;32;98;116;105;109;101;32;48;32], false, 24)].
+Example go_ws_observed_agree :
+  forallb (fun '(s, w, c) => (go_code s w =? c) && go_case_ok NotationImpl.from_uci s w (c =? 0)) go_ws_observed = true.
+Proof. vm_compute. reflexivity. Qed.
+
 (* sequences of lines given to a fresh handler: the info codes printed (100 = readyok) and the
    FEN of the handler's position afterwards *)
 Definition position_observed : list (list str * list N * str) := [
@@ -945,7 +1093,7 @@ Definition position_observed : list (list str * list N * str) := [
 ([[112;111;115;105;116;105;111;110;32;115;116;97;114;116;112;111;115;32;109;111;118;101;115;32;101;50;101;52;32;120;120;32;101;55;101;53]], [12], [114;110;98;113;107;98;110;114;47;112;112;112;112;112;112;112;112;47;56;47;56;47;52;80;51;47;56;47;80;80;80;80;49;80;80;80;47;82;78;66;81;75;66;78;82;32;98;32;75;81;107;113;32;101;51;32;48;32;49]);
 ([[112;111;115;105;116;105;111;110;32;115;116;97;114;116;112;111;115;32;101;50;101;52]], [13], [114;110;98;113;107;98;110;114;47;112;112;112;112;112;112;112;112;47;56;47;56;47;56;47;56;47;80;80;80;80;80;80;80;80;47;82;78;66;81;75;66;78;82;32;119;32;75;81;107;113;32;45;32;48;32;49]);
 ([[112;111;115;105;116;105;111;110;32;115;116;97;114;116;112;111;115;32;109;111;118;101;115;32;101;50;101;52;32;109;111;118;101;115;32;101;55;101;53]], [], [114;110;98;113;107;98;110;114;47;112;112;112;112;112;112;112;112;47;56;47;56;47;52;80;51;47;56;47;80;80;80;80;49;80;80;80;47;82;78;66;81;75;66;78;82;32;98;32;75;81;107;113;32;101;51;32;48;32;49]);
-([[112;111;115;105;116;105;111;110;32;32;115;116;97;114;116;112;111;115;32;32;32;109;111;118;101;115;32;32;101;50;101;52;32]], [12], [114;110;98;113;107;98;110;114;47;112;112;112;112;112;112;112;112;47;56;47;56;47;52;80;51;47;56;47;80;80;80;80;49;80;80;80;47;82;78;66;81;75;66;78;82;32;98;32;75;81;107;113;32;101;51;32;48;32;49]);
+([[112;111;115;105;116;105;111;110;32;32;115;116;97;114;116;112;111;115;32;32;32;109;111;118;101;115;32;32;101;50;101;52;32]], [], [114;110;98;113;107;98;110;114;47;112;112;112;112;112;112;112;112;47;56;47;56;47;52;80;51;47;56;47;80;80;80;80;49;80;80;80;47;82;78;66;81;75;66;78;82;32;98;32;75;81;107;113;32;101;51;32;48;32;49]);
 ([[32;112;111;115;105;116;105;111;110;32;115;116;97;114;116;112;111;115]], [], [114;110;98;113;107;98;110;114;47;112;112;112;112;112;112;112;112;47;56;47;56;47;56;47;56;47;80;80;80;80;80;80;80;80;47;82;78;66;81;75;66;78;82;32;119;32;75;81;107;113;32;45;32;48;32;49]);
 ([[112;111;115;105;116;105;111;110;32;115;116;97;114;116;112;111;115;32;109;111;118;101;115;32;101;50;101;52];[112;111;115;105;116;105;111;110;32;102;101;110;32;120;121;122];[105;115;114;101;97;100;121]], [11;100], [114;110;98;113;107;98;110;114;47;112;112;112;112;112;112;112;112;47;56;47;56;47;52;80;51;47;56;47;80;80;80;80;49;80;80;80;47;82;78;66;81;75;66;78;82;32;98;32;75;81;107;113;32;101;51;32;48;32;49]);
 ([[112;111;115;105;116;105;111;110;32;115;116;97;114;116;112;111;115;32;109;111;118;101;115;32;101;50;101;52];[112;111;115;105;116;105;111;110;32;102;101;110;32;56;47;56;47;56;47;56;47;56;47;56;47;56;47;56;32;119;32;45;32;45;32;48;32;49]], [11], [114;110;98;113;107;98;110;114;47;112;112;112;112;112;112;112;112;47;56;47;56;47;52;80;51;47;56;47;80;80;80;80;49;80;80;80;47;82;78;66;81;75;66;78;82;32;98;32;75;81;107;113;32;101;51;32;48;32;49]);
@@ -979,7 +1127,12 @@ Definition position_observed : list (list str * list N * str) := [
 ([[112;111;115;105;116;105;111;110;32;115;116;97;114;116;112;111;115;32;109;111;118;101;115;32;103;49;102;51;32;104;55;104;53;32;104;50;104;51;32;103;56;102;54;32;104;51;104;52;32;103;55;103;53;32;98;49;99;51;32;104;56;103;56;32;102;51;101;53;32;102;54;100;53;32;101;50;101;51;32;98;56;99;54;32;104;49;104;50;32;98;55;98;53;32;97;49;98;49;32;103;53;104;52;32;99;51;97;52;32;100;53;98;54;32;97;52;99;51;32;99;54;100;52;32;104;50;104;51;32;99;55;99;53]], [], [114;49;98;113;107;98;114;49;47;112;50;112;112;112;50;47;49;110;54;47;49;112;112;49;78;50;112;47;51;110;51;112;47;50;78;49;80;50;82;47;80;80;80;80;49;80;80;49;47;49;82;66;81;75;66;50;32;119;32;113;32;99;54;32;48;32;49;50]);
 ([[112;111;115;105;116;105;111;110;32;115;116;97;114;116;112;111;115;32;109;111;118;101;115;32;101;50;101;52;32;97;55;97;53;32;98;50;98;51;32;103;55;103;54;32;100;49;104;53;32;98;56;97;54;32;104;53;104;52;32;100;55;100;54;32;101;49;101;50;32;99;56;104;51;32;97;50;97;51;32;98;55;98;54;32;101;50;102;51;32;97;54;98;52;32;104;52;104;51;32;101;55;101;54;32;104;51;102;53;32;102;56;104;54;32;102;49;97;54;32;100;54;100;53;32;103;50;103;52]], [], [114;50;113;107;49;110;114;47;50;112;50;112;49;112;47;66;112;50;112;49;112;98;47;112;50;112;49;81;50;47;49;110;50;80;49;80;49;47;80;80;51;75;50;47;50;80;80;49;80;49;80;47;82;78;66;51;78;82;32;98;32;107;113;32;103;51;32;48;32;49;49]);
 ([[112;111;115;105;116;105;111;110;32;115;116;97;114;116;112;111;115;32;109;111;118;101;115;32;103;49;102;51;32;103;55;103;53;32;98;49;99;51;32;98;55;98;54;32;97;50;97;51;32;103;53;103;52;32;101;55;101;56;113;32;99;56;98;55;32;101;50;101;52;32;103;52;103;51;32;99;51;101;50;32;98;55;101;52;32;104;50;104;52;32;103;56;102;54;32;104;52;104;53;32;102;56;104;54;32;100;50;100;51;32;101;52;103;54;32;97;49;98;49;32;103;54;100;51]], [12], [114;110;98;113;107;98;110;114;47;112;49;112;112;112;112;49;112;47;49;112;54;47;56;47;54;112;49;47;80;49;78;50;78;50;47;49;80;80;80;80;80;80;80;47;82;49;66;81;75;66;49;82;32;119;32;75;81;107;113;32;45;32;48;32;52]);
-([[112;111;115;105;116;105;111;110;32;115;116;97;114;116;112;111;115;32;109;111;118;101;115;32;98;49;97;51;32;99;55;99;54;32;97;51;99;52;32;103;55;103;54;32;98;50;98;52;32;99;54;99;53;32;99;52;97;53;32;103;56;104;54;32;97;49;98;49;32;100;55;100;54;32;104;50;104;52;32;104;54;103;56;32;102;50;102;52;32;102;56;103;55;32;97;53;99;54;32;101;56;102;56;32;97;50;97;51;32;101;50;101;52;32;100;50;100;52]], [12], [114;110;98;113;49;107;110;114;47;112;112;50;112;112;98;112;47;50;78;112;50;112;49;47;50;112;53;47;49;80;51;80;49;80;47;80;55;47;50;80;80;80;49;80;49;47;49;82;66;81;75;66;78;82;32;98;32;75;32;45;32;48;32;57])].
+([[112;111;115;105;116;105;111;110;32;115;116;97;114;116;112;111;115;32;109;111;118;101;115;32;98;49;97;51;32;99;55;99;54;32;97;51;99;52;32;103;55;103;54;32;98;50;98;52;32;99;54;99;53;32;99;52;97;53;32;103;56;104;54;32;97;49;98;49;32;100;55;100;54;32;104;50;104;52;32;104;54;103;56;32;102;50;102;52;32;102;56;103;55;32;97;53;99;54;32;101;56;102;56;32;97;50;97;51;32;101;50;101;52;32;100;50;100;52]], [12], [114;110;98;113;49;107;110;114;47;112;112;50;112;112;98;112;47;50;78;112;50;112;49;47;50;112;53;47;49;80;51;80;49;80;47;80;55;47;50;80;80;80;49;80;49;47;49;82;66;81;75;66;78;82;32;98;32;75;32;45;32;48;32;57]);
+([[32;112;111;115;105;116;105;111;110;32;115;116;97;114;116;112;111;115;32;109;111;118;101;115;32;101;50;101;52;32]], [], [114;110;98;113;107;98;110;114;47;112;112;112;112;112;112;112;112;47;56;47;56;47;52;80;51;47;56;47;80;80;80;80;49;80;80;80;47;82;78;66;81;75;66;78;82;32;98;32;75;81;107;113;32;101;51;32;48;32;49]);
+([[9;112;111;115;105;116;105;111;110;32;102;101;110;32;52;107;51;47;56;47;56;47;56;47;56;47;56;47;56;47;52;75;51;32;119;32;45;32;45;32;48;32;49;11];[11;32;105;115;114;101;97;100;121;32;13]], [100], [52;107;51;47;56;47;56;47;56;47;56;47;56;47;56;47;52;75;51;32;119;32;45;32;45;32;48;32;49]);
+([[112;111;115;105;116;105;111;110;32;115;116;97;114;116;112;111;115;32;109;111;118;101;115;32;101;50;101;52;194;160]], [], [114;110;98;113;107;98;110;114;47;112;112;112;112;112;112;112;112;47;56;47;56;47;52;80;51;47;56;47;80;80;80;80;49;80;80;80;47;82;78;66;81;75;66;78;82;32;98;32;75;81;107;113;32;101;51;32;48;32;49]);
+([[226;128;131;112;111;115;105;116;105;111;110;32;115;116;97;114;116;112;111;115;32;109;111;118;101;115;32;100;50;100;52;32;100;55;100;53;194;133];[32;103;111;32;100;101;112;116;104]], [20], [114;110;98;113;107;98;110;114;47;112;112;112;49;112;112;112;112;47;56;47;51;112;52;47;51;80;52;47;56;47;80;80;80;49;80;80;80;80;47;82;78;66;81;75;66;78;82;32;119;32;75;81;107;113;32;100;54;32;48;32;50]);
+([[32;32;112;111;115;105;116;105;111;110;32;32;32;115;116;97;114;116;112;111;115;32;32;32;109;111;118;101;115;32;32;32;103;49;102;51;32;32];[32;120;121;122];[112;111;115;105;116;105;111;110;194;160;115;116;97;114;116;112;111;115]], [], [114;110;98;113;107;98;110;114;47;112;112;112;112;112;112;112;112;47;56;47;56;47;56;47;53;78;50;47;80;80;80;80;80;80;80;80;47;82;78;66;81;75;66;49;82;32;98;32;75;81;107;113;32;45;32;49;32;49])].
 Definition codes_of (out : list out_line) : list N :=
   flat_map (fun o => match o with OInfo c => [c] | OReadyOk => [100] | _ => [] end) out.
 Example position_observed_agree :
@@ -1270,4 +1423,8 @@ Print Assumptions position_moves_spec.
 Print Assumptions position_is_fold.
 Print Assumptions setoption_exact.
 Print Assumptions apply_handler_frame.
+Print Assumptions isready_ws_answered.
+Print Assumptions uci_total_notation.
 Print Assumptions uci_total_reachable_notation.
+Print Assumptions position_moves_spec_notation.
+Print Assumptions position_is_fold_notation.
